@@ -1,14 +1,21 @@
 """C12 - placeholders expand to shell words that evaluate back to the original text (spec/FzfShell.tla).
 
 MC  MC_Shell / MC_ShellLex / MC_ShellExpand: ShEval(Quote(s)) = <<s>> for every string over the 18-symbol data alphabet,
-    one word per item, escaped placeholders literal, the expansion of every (template, terminal state) pair reads back.
+    one word per item, escaped placeholders literal, the expansion of every (template, terminal state) pair reads back;
+    the executor matrix ($SHELL x --with-shell, 48 cells): the quoting style follows the program that runs the command,
+    every (style, evaluating program) pair of the matrix reads back, crossed pairs do not.
 E   the same strings / command lines / (template, state) pairs, with the expansion TLC computed, replayed on the real
     Executor.QuoteEntry / escapeSingleQuote / buildPlusList + replacePlaceholder; the real /bin/sh and bash are given
-    every command line the specification calls inert and must see exactly the words TLC computed.
+    every command line the specification calls inert and must see exactly the words TLC computed.  Every string also
+    goes through the executor NewExecutor builds under every cell of the matrix (which cells give which quoted form =
+    the table TLC computed), and what a POSIX-evaluated cell quotes is read by the program its own ExecCommand starts.
 J   random long multi-line items / queries / selections through the same code, run by the real Executor.ExecCommand
-    under every shell, and the real binary's --tmux re-launch (stand-in tmux, stand-in child); Judge_Shell decides.
+    under every shell and under cells of the matrix; the real binary's --tmux re-launch (stand-in tmux, stand-in child);
+    the real binary under tmux with $SHELL / --with-shell of every POSIX-evaluated cell running
+    load:execute-silent(printf '%s\\0' {} {q} > file)+abort on random items / queries; Judge_Shell decides.
 """
-import json, os, shutil
+import json, os, shlex, shutil
+from concurrent.futures import ThreadPoolExecutor
 import vlib
 from vlib import replay_cases, Infra, write_ndjson, read_ndjson
 
@@ -50,26 +57,42 @@ def find_shells():
 
 
 # ------------------------------------------------------------------------------------------------ E helpers
+CELLS = []      # the ($SHELL, --with-shell) table as TLC printed it (messages only)
+
+
 def per_shell(shells, words):
     return {sh["name"]: words for sh in shells}
 
 
 def kf_site(c, exp, r):
     got = r.get("got") or {}
-    for k in ("p", "f", "e", "valid", "x", "xf", "sh"):
+    for k in ("argv", "p", "f", "e", "valid", "x", "xf", "sh", "xs", "ev"):
         if k in exp and got.get(k) != exp[k]:
             site = {"p": "Executor.QuoteEntry(posix)", "f": "Executor.QuoteEntry(fish)", "e": "escapeSingleQuote",
                     "valid": "buildPlusList", "x": "replacePlaceholder", "xf": "replacePlaceholder(fish)",
-                    "sh": "real shell"}[k]
+                    "sh": "real shell", "argv": "NewExecutor/ExecCommand argv",
+                    "xs": "NewExecutor: quoting style per ($SHELL, --with-shell)",
+                    "ev": "real shell started by the executor of a ($SHELL, --with-shell) cell"}[k]
             return {"site": site, "field": k}
     return None
 
 
 def describe(c, exp, r):
+    extra = ""
     got = r.get("got") or {}
     diff = {k: {"spec": exp[k], "real": got.get(k)} for k in exp if got.get(k) != exp[k]}
     inp = {k: (show(c[k]) if k in ("s", "t", "its", "q") else c[k]) for k in c
-           if k in ("s", "t", "its", "ix", "cur", "sel", "q", "fp")}
+           if k in ("s", "t", "its", "ix", "cur", "sel", "q", "fp", "shell", "set", "ws")}
+    if "xs" in diff and CELLS:
+        # name the cells whose executor quotes differently from the table
+        def per_cell(xs):
+            return {i: q for q, mask in (xs or {}).items() for i, b in enumerate(mask) if b == "1"}
+        want, real = per_cell(exp["xs"]), per_cell(got.get("xs"))
+        wrong = [i for i in sorted(want) if real.get(i) != want[i]]
+        del diff["xs"]
+        extra = " QuoteEntry differs from the table in %d cells, e.g. %s" % (len(wrong), json.dumps([
+            {"SHELL": CELLS[i]["shell"] if CELLS[i]["set"] else None, "with-shell": CELLS[i]["ws"],
+             "spec_style": CELLS[i]["style"], "spec": show(want[i]), "real": show(real.get(i, "?"))} for i in wrong[:3]]))
 
     def shw(v):
         if isinstance(v, dict):
@@ -77,7 +100,7 @@ def describe(c, exp, r):
         if isinstance(v, str) and v.startswith("ERR"):
             return v
         return show(v) if isinstance(v, (str, list)) else v
-    return "input %s: %s" % (json.dumps(inp), json.dumps({k: shw(v) for k, v in diff.items()})[:900])
+    return "input %s:%s %s" % (json.dumps(inp), extra, json.dumps({k: shw(v) for k, v in diff.items()})[:900])
 
 
 def mc_and_cases(ctx, module, cfg, label, coverage=False, env=None, timeout=2400, workers=None):
@@ -219,17 +242,93 @@ def text_of(syms):
     return "".join(m.get(s, chr(int(s[1:], 16)) if len(s) == 3 and s[0] == "x" else s) for s in syms)
 
 
+SYM_OF = {"'": "SQ", '"': "DQ", "\\": "BSL", "$": "DOL", "`": "BT", " ": "SP", "\n": "LF", "*": "STAR", ";": "SEMI",
+          "&": "AMP", "|": "PIPE", "(": "LP", "{": "LB", "}": "RB", "!": "BANG", "#": "HASH", "~": "TILDE", "+": "PLUS",
+          "-": "MINUS", ".": "DOT", ":": "COLON"}
+
+
+def syms_of(text):
+    """inverse of text_of (bytes outside the table: xHH)"""
+    return [SYM_OF.get(ch) or (ch if ch.isascii() and ch.isalnum() else "x%02X" % ord(ch)) for ch in text]
+
+
 def describe_expand_rec(r):
     return json.dumps({"template": text_of(r["t"]), "items": [text_of(i) for i in r["items"]], "ordinals": r["ix"],
                        "cur": r["cur"], "sel": r["sel"], "query": text_of(r["q"]), "forcePlus": r["fp"],
                        "valid": r["valid"], "expansion": text_of(r["x"]),
-                       "argv": {k: [text_of(w) for w in v] for k, v in r["argv"].items()}})[:1500]
+                       "argv": {k: [text_of(w) for w in v] for k, v in r["argv"].items()},
+                       "matrix_runs": [{"SHELL": "/".join(c["shell"]) if c["set"] else None,
+                                        "with-shell": " ".join("/".join(w) for w in c["ws"]),
+                                        "expansion": text_of(c["x"]), "ran": c["ran"],
+                                        "argv": [text_of(w) for w in c["argv"]]}
+                                       for c in r.get("runs", [])]
+                       })[:2500]
 
 
 def describe_tmux_rec(r):
     return json.dumps({"argv0": text_of(r["argv0"]), "args": [text_of(a) for a in r["args"]],
                        "env": [text_of(a) for a in r["envs"]], "child_argv": [text_of(a) for a in r["seen"]],
                        "child_env": [text_of(a) for a in r["seenenv"]], "err": r["err"]})[:1500]
+
+
+# ------------------------------------------------------------------------------------------------ process level
+PEXEC_BIND = "load:execute-silent(printf '%s\\0' {} {q} > seen.bin)+abort"
+
+
+def pexec_session(ctx, fzf, rec):
+    """One session of the real binary under tmux: $SHELL and --with-shell of the cell, one item (--read0), a query,
+    the command run on `load`; returns the record with what printf received."""
+    import tmuxdrv
+    prefix = ("env SHELL=%s " % shlex.quote("/".join(rec["shell"]))) if rec["set"] else "env -u SHELL "
+    args = ["--read0", "--disabled", "--query=" + text_of(rec["q"]), "--bind", PEXEC_BIND]
+    ws = " ".join("/".join(w) for w in rec["ws"])
+    if ws:
+        args += ["--with-shell", ws]
+    s = tmuxdrv.Session(ctx, fzf, args, input_data=(text_of(rec["item"]) + "\0").encode(), listen=False,
+                        shell_prefix=prefix)
+    out = dict(rec, seen=[], err="")
+    try:
+        status, _ = s.wait_exit(120)
+        p = os.path.join(s.dir, "seen.bin")
+        if status != 130:
+            out["err"] = "exit status %d" % status
+        elif not os.path.exists(p):
+            out["err"] = "command wrote nothing"
+        else:
+            data = open(p, "rb").read().decode("latin-1")
+            parts = data.split("\0")
+            if parts[-1] != "":
+                out["err"] = "output not NUL-terminated"
+            out["seen"] = [syms_of(w) for w in parts[:-1]]
+    finally:
+        s.close()
+        shutil.rmtree(s.dir, ignore_errors=True)
+    return out
+
+
+def describe_pexec_rec(r):
+    return json.dumps({"SHELL": "/".join(r["shell"]) if r["set"] else None, "with-shell": " ".join("/".join(w) for w in r["ws"]),
+                       "bind": PEXEC_BIND, "item": text_of(r["item"]), "query": text_of(r["q"]),
+                       "printf_saw": [text_of(w) for w in r["seen"]], "err": r["err"]})[:1500]
+
+
+def pexec_and_judge(ctx, inputs):
+    fzf = ctx.build_fzf()
+    with ThreadPoolExecutor(max_workers=6) as ex:
+        recs = list(ex.map(lambda r: pexec_session(ctx, fzf, r), inputs))
+    bad, _ = vlib.judge(ctx, "Judge_Shell", "Judge_Shell.cfg", recs, "pexec", timeout=3000)
+    if bad:
+        again = [pexec_session(ctx, fzf, inputs[i]) for i in bad[:10]]
+        bad2, _ = vlib.judge(ctx, "Judge_Shell", "Judge_Shell.cfg", again, "pexec-re", timeout=3000, workers=1)
+        if not bad2:
+            raise Infra("pexec: %d rejected sessions, none reproduced" % len(bad))
+        for j in bad2:
+            r = again[j]
+            ctx.violation("execute-silent in the real binary: the shell did not receive the item / query: " +
+                          describe_pexec_rec(r),
+                          {"harness": "pexec", "label": "pexec", "record": {k: r[k] for k in ("kind", "set", "shell", "ws", "item", "q")},
+                           "kf": {"site": "NewExecutor/execute (process level)", "err": bool(r["err"])}})
+    return recs
 
 
 # ------------------------------------------------------------------------------------------------ the check
@@ -239,9 +338,25 @@ def run(ctx):
     h = ctx.build_harness("src", ["zz_verif_common_test.go", "zz_verif_shell_test.go"])
     W = 8 if os.environ.get("VERIF_DEV") else None
 
+    def use_cells(res):
+        cells = sorted(res.json_items("CELL"), key=lambda c: c["id"])
+        if len(cells) != 48 or [c["id"] for c in cells] != list(range(48)):
+            raise Infra("executor matrix: %d cells exported" % len(cells))
+        path = os.path.join(ctx.work, "cells.json")
+        json.dump(cells, open(path, "w"))
+        senv["VERIF_CELLS"] = path
+        CELLS[:] = cells
+        return cells
+
     if ctx.replay:
         rp = json.load(open(ctx.replay))["case"]
-        if "record" in rp:
+        cells = use_cells(ctx.tlc("MC_Shell", "MC_ShellCells.cfg", label="cells", workers=1))
+        if rp.get("harness") == "pexec":
+            recs = [pexec_session(ctx, ctx.build_fzf(), rp["record"])]
+            bad, _ = vlib.judge(ctx, "Judge_Shell", "Judge_Shell.cfg", recs, "replay", workers=1)
+            for j in bad:
+                ctx.violation("pexec: " + describe_pexec_rec(recs[j]), {"harness": "pexec", "record": recs[j]})
+        elif "record" in rp:
             record_and_judge(ctx, h, rp["harness"], [rp["record"]], "replay",
                              dict(senv, VERIF_FZF=ctx.build_fzf()) if rp["harness"] == "TestVerifShellTmux" else senv,
                              describe_tmux_rec if rp["harness"] == "TestVerifShellTmux" else describe_expand_rec,
@@ -254,13 +369,32 @@ def run(ctx):
     nontrivial = 0
     # ---- (1)+(2a) quoting: every string over the data alphabet; invariants and case export in one walk
     def exp_quote(c):
-        return {"p": c["p"], "f": c["f"], "e": c["e"], "sh": per_shell(shells, c["w"])}
+        return {"p": c["p"], "f": c["f"], "e": c["e"], "sh": per_shell(shells, c["w"]), "xs": c["xs"], "ev": c["ev"]}
 
-    _, cases = mc_and_cases(ctx, "MC_Shell", "MC_Shell_quick.cfg", "quote<=4", coverage=True, workers=W)
+    res0, cases = mc_and_cases(ctx, "MC_Shell", "MC_Shell_quick.cfg", "quote<=4", coverage=True, workers=W)
     if len(cases) != sum(18 ** k for k in range(5)):
         raise Infra("quote<=4: %d cases" % len(cases))
+    # ---- the executor matrix: the table TLC printed, bound to NewExecutor / ExecCommand cell by cell
+    cells = use_cells(res0)
+    posix_cells = [c for c in cells if c["ev"] == "posix"]
+    crossed = [c for c in cells if c["set"] and (os.path.basename(c["shell"]) == "fish") != (c["style"] == "fish")]
+    if not posix_cells or not crossed or not any(c["style"] == "fish" for c in cells):
+        raise Infra("executor matrix without POSIX-evaluated / crossed / fish cells")
+    replay_cases(ctx, h, "TestVerifShellCells", cells, lambda c: {"argv": c["argv"]}, "cells", env=senv, describe=describe,
+                 kf=kf_site)
+    ctx.cov["executor_matrix"] = {"cells": len(cells), "evaluated_by_real_posix_shell": len(posix_cells),
+                                  "fish_style (bound to the code only)": sum(1 for c in cells if c["style"] == "fish"),
+                                  "no model of the evaluating program": sum(1 for c in cells if c["ev"] == "other"),
+                                  "SHELL_and_with-shell_disagree_about_fish": len(crossed),
+                                  "command_prefixes_run": sorted({" ".join(c["argv"]) for c in posix_cells})}
+    ctx.assumptions.append("executor matrix: $SHELL in {unset, empty, /bin/sh, /bin/bash, /usr/bin/fish, /opt/x/fish, fishy, "
+                           "/bin/zsh} x --with-shell in {not given, 'sh -c', 'bash -c', '/bin/bash --posix -c', 'fish -c', "
+                           "'/usr/local/bin/fish -c'}; other programs (zsh, ruby -e, ...) get the POSIX style and no round-trip "
+                           "claim; a trailing slash or blanks inside a path are not exercised")
     replay_cases(ctx, h, "TestVerifShellQuote", cases, exp_quote, "quote4", env=senv, describe=describe, kf=kf_site)
     nontrivial += sum(1 for c in cases if SPECIAL_CODES & set(c["s"]))
+    prefixes = sorted({" ".join(c["argv"]) for c in posix_cells})
+    nontrivial += sum(len(prefixes) for c in cases if SPECIAL_CODES & set(c["s"]))
     for c in (cases[1], cases[len(cases) // 3], cases[-1]):
         ctx.sample({"text": show(c["s"]), "QuoteEntry": show(c["p"]), "fish": show(c["f"]),
                     "line_given_to_shells": show(c["p"] + "_" + c["e"] + "_a" + c["p"] + "a"), "shell_words": show(c["w"])})
@@ -272,7 +406,7 @@ def run(ctx):
                 raise Infra("quote5-%s: %d cases" % (first, len(cs)))
             replay_cases(ctx, h, "TestVerifShellQuote", cs, exp_quote, "quote5-" + first, env=senv, describe=describe,
                          kf=kf_site)
-            nontrivial += sum(1 for c in cs if SPECIAL_CODES & set(c["s"]))
+            nontrivial += sum(1 + len(prefixes) for c in cs if SPECIAL_CODES & set(c["s"]))
     ctx.cov["exhaustive"] = True
 
     # ---- (2b) the shell model itself against the real shells
@@ -324,11 +458,17 @@ def run(ctx):
     # ---- (3a) J: random long inputs, real ExecCommand under every shell
     n = ctx.pick(1500, 20000)
     inputs = [rand_record_input(ctx.rng) for _ in range(n)]
+    for i, inp in enumerate(inputs):        # every cell in turn, plus a random one
+        inp["cells"] = [i % len(cells), ctx.rng.randrange(len(cells))]
     recs, res = record_and_judge(ctx, h, "TestVerifShellRecord", inputs, "record", senv, describe_expand_rec,
                                  lambda r: {"site": "replacePlaceholder/ExecCommand", "valid": r["valid"]})
     for r in recs:
         if r["valid"] and set(r["argv"]) != {sh["name"] for sh in shells}:
             raise Infra("record without the argv of every shell")
+        if r["valid"] and len(r["runs"]) != 2:
+            raise Infra("record without its matrix runs")
+    ctx.cov["random_records_run_under_matrix_cells"] = {
+        "expanded": sum(len(r["runs"]) for r in recs), "run_by_real_shell": sum(1 for r in recs for c in r["runs"] if c["ran"])}
     jspoken = len(res.raw_items("SPOKEN"))
     if jspoken < n // 5:
         raise Infra("only %d of %d random records fall under the property" % (jspoken, n))
@@ -346,14 +486,36 @@ def run(ctx):
     nontrivial += m
     ctx.sample({"tmux_child_argv": [text_of(a) for a in trecs[0]["seen"]][:9]})
 
+    # ---- (3c) J: the real binary with $SHELL / --with-shell of every POSIX-evaluated cell, execute-silent on one item
+    per_cell = ctx.pick(3, 40)
+    pin = []
+    for c in posix_cells:
+        for k in range(per_cell):
+            item = rand_text(ctx.rng, 30) or ["a"]
+            q = rand_text(ctx.rng, 30)
+            if k == 0:          # one session per cell certainly has a quote and a backslash in it
+                item.insert(ctx.rng.randint(0, len(item)), "SQ")
+                q.insert(ctx.rng.randint(0, len(q)), "BSL")
+            pin.append({"kind": "pexec", "set": c["set"], "shell": c["shell"].split("/") if c["set"] else [],
+                        "ws": [w.split("/") for w in c["ws"].split()], "item": item, "q": q})
+    precs = pexec_and_judge(ctx, pin)
+    nontrivial += len(precs)
+    ctx.cov["execute_sessions_of_the_real_binary"] = len(precs)
+    ctx.sample({"SHELL": "/".join(precs[0]["shell"]) if precs[0]["set"] else None,
+                "with-shell": " ".join("/".join(w) for w in precs[0]["ws"]), "item": text_of(precs[0]["item"]),
+                "query": text_of(precs[0]["q"]), "printf_saw": [text_of(w) for w in precs[0]["seen"]]})
+
     ctx.cov["distinct_nontrivial"] = nontrivial
     ctx.cov["shells"] = [" ".join(s["argv"]) for s in shells]
     ctx.cov["rule"] = ("sum of: strings over the 18-symbol data alphabet (length <= %d, all of them) that contain at least "
                        "one non-letter symbol, each quoted by the real QuoteEntry (POSIX + fish) and escapeSingleQuote and "
-                       "read back by every real shell; (template, terminal state) pairs of MC_ShellExpand with at least "
+                       "read back by every real shell, plus the same strings once per distinct command prefix (sh -c, "
+                       "/bin/bash --posix -c, ...) of the POSIX-evaluated cells of the 48-cell ($SHELL, --with-shell) matrix, "
+                       "quoted by the executors built under those cells and read by the program ExecCommand starts; (template, terminal state) pairs of MC_ShellExpand with at least "
                        "one placeholder for which the property speaks (placeholders unquoted, not raw); random records "
                        "(items/queries up to 40 symbols, multi-line, up to 5 lines selected) for which it speaks, run by "
-                       "the real ExecCommand under every shell; --tmux re-launches of the real binary. Compared: code "
+                       "the real ExecCommand under every shell (and under 2 cells of the matrix each); --tmux re-launches of the "
+                       "real binary; execute-silent sessions of the real binary under every POSIX-evaluated cell. Compared: code "
                        "expansion = spec expansion, real shell argv = words computed by TLC" % ctx.pick(4, 5))
     ctx.assumptions += [
         "no fish binary here: the fish escaper is bound to the code only (QuoteFish = real QuoteEntry under SHELL=fish; "
